@@ -21,6 +21,24 @@ emits. Here the actions are executed on a state of running units:
   that holds its session and reaches every rib unit whose *current* `sources` list that unit
   (`DirectLink`), where `Rib::insert` upserts the record keyed by (prefix, ingress).
 
+`Gate::clone` (`src/comms.rs`) registers the clone with the root gate through
+`NormalGateState::command_sender` — the sender of the command channel the gate was *created* with.
+`Reconfigure` replaces the receiving end (`*self.commands.write().await = new_commands`), the old
+channel is closed, `command_sender` is never updated: every clone made afterwards fails to attach,
+its own command channel closes at once, its `process()` returns `Terminated`. For bmp-tcp-in that
+is the `RouterHandler` of every router that connects *after* a reload: accepted, then dropped
+(`BmpUnit.stale`).
+
+Every `RouterHandler` owns a gate clone it only publishes through (`self.gate.update_data`); the
+clone whose `process()` is polled is a *second* clone made for its `BmpStream`. The root gate
+registers both and `notify_clones` sends every `FollowReconfigure` / `FollowSubscribe` /
+`ReportLinks` to both with `sender.send(cmd).await` on a channel of `COMMAND_QUEUE_LEN = 16`. The
+first clone's queue is never read: three notifications per reload, so during the sixth reload after
+a router connected the root gate blocks inside `notify_clones` for good. From then on the unit
+takes no command off its queue any more (`BmpUnit.reloads`, `Variant.queueWedge`): later reloads
+change nothing in it. (Whether its routers' updates still reach anybody depends on which of the
+three notifications blocked; that is not modelled and the harness does not look at it.)
+
 `Gate::process`, arm `GateCommand::Reconfigure` (`src/comms.rs`): `self.updates.replace(new_updates)`
 installs the *empty* subscriber set of the new gate; downstream units subscribe again when they
 handle their own `Reconfiguring`. An update published in between reaches nobody. Which updates fell
@@ -64,6 +82,14 @@ def upsert (r : Rec) : List Rec → List Rec
   | [] => [r]
   | x :: xs => if x.pfx = r.pfx ∧ x.src = r.src then r :: xs else x :: upsert r xs
 
+/-- A withdrawal marks the record of that key withdrawn; without such a record nothing is stored
+    (the unit counts it as a "withdrawal without announcement"). -/
+def withdraw (r : Rec) : List Rec → List Rec
+  | [] => []
+  | x :: xs => if x.pfx = r.pfx ∧ x.src = r.src then r :: xs else x :: withdraw r xs
+
+def applyRec (r : Rec) (st : List Rec) : List Rec := if r.active then upsert r st else withdraw r st
+
 structure RibUnit where
   store : List Rec         -- the `Rib` behind `rib: Arc<ArcSwap<Rib>>`
   cfg : RibCfg             -- effective settings: `sources`, `query_limits`, `filter_name`, and the
@@ -74,6 +100,8 @@ structure BmpUnit where
   cfg : BmpCfg
   bound : Nat              -- the port the listener is bound to
   sessions : List Nat      -- routers with an open session (`router_states`)
+  stale : Bool             -- the gate's `command_sender` points at a closed channel
+  reloads : Nat            -- reconfigures handled while a router was connected
   deriving DecidableEq, Repr
 
 inductive Unit where
@@ -87,10 +115,14 @@ def Unit.ty : Unit → Ty
   | .bmp _ => 0
   | .other t => t
 
-/-- `pathIgnored = true`: the code as written keeps the old `http_api_path` on reconfigure. -/
+/-- `pathIgnored = true`: the code as written keeps the old `http_api_path` on reconfigure.
+    `cloneStale = true`: the code as written leaves `command_sender` pointing at the old channel.
+    `queueWedge = true`: the code as written blocks on the never-read clone queue. -/
 structure Variant where
   mgr : Mgr.Variant
   pathIgnored : Bool
+  cloneStale : Bool
+  queueWedge : Bool
   deriving DecidableEq, Repr
 
 /-- The rib unit's `Reconfiguring` arm. -/
@@ -100,20 +132,29 @@ def reconfRib (pathIgnored : Bool) (u : RibUnit) (new : RibCfg) : RibUnit :=
 
 /-- The bmp-tcp-in unit's `Reconfiguring` arm (re-bind iff `listen` differs: either way the
     listener ends up on the new port). -/
-def reconfBmp (u : BmpUnit) (new : BmpCfg) : BmpUnit :=
-  { cfg := new, bound := new.listen, sessions := u.sessions }
+def BmpUnit.wedged (queueWedge : Bool) (u : BmpUnit) : Bool := queueWedge && decide (6 ≤ u.reloads)
 
-def reconf (pathIgnored : Bool) (u : Unit) (s : Settings) : Unit :=
+def reconfBmp (cloneStale queueWedge : Bool) (u : BmpUnit) (new : BmpCfg) : BmpUnit :=
+  if u.wedged queueWedge then u
+  else { cfg := new, bound := new.listen, sessions := u.sessions, stale := u.stale || cloneStale,
+         reloads := u.reloads }
+
+/-- one more reload handled with a router connected (three more notifications in the unread queue) -/
+def Unit.bump : Unit → Unit
+  | .bmp b => .bmp { b with reloads := if b.sessions.isEmpty then b.reloads else b.reloads + 1 }
+  | u => u
+
+def reconf (v : Variant) (u : Unit) (s : Settings) : Unit :=
   match u, s with
-  | .rib r, .rib c => .rib (reconfRib pathIgnored r c)
-  | .bmp b, .bmp c => .bmp (reconfBmp b c)
+  | .rib r, .rib c => .rib (reconfRib v.pathIgnored r c)
+  | .bmp b, .bmp c => .bmp (reconfBmp v.cloneStale v.queueWedge b c)
   | u, _ => u
 
 /-- `Unit::run` with the file's settings. -/
 def fresh (t : Ty) (s : Settings) : Unit :=
   match s with
   | .rib c => .rib ⟨[], c⟩
-  | .bmp c => .bmp ⟨c, c.listen, []⟩
+  | .bmp c => .bmp ⟨c, c.listen, [], false, 0⟩
   | .other => .other t
 
 def lookupS (n : Name) : List (Name × Settings) → Settings
@@ -131,12 +172,17 @@ def mapU (n : Name) (f : Unit → Unit) : List (Name × Unit) → List (Name × 
   | e :: l => (if e.1 = n then (e.1, f e.2) else e) :: mapU n f l
 
 /-- Execute one action of `spawn_internal` on the running units. -/
-def exec (pathIgnored : Bool) (settings : List (Name × Settings)) (units : List (Name × Unit)) :
+def exec (v : Variant) (settings : List (Name × Settings)) (units : List (Name × Unit)) :
     Action → List (Name × Unit)
   | .spawnU n t => dropU n units ++ [(n, fresh t (lookupS n settings))]
-  | .reconfU n => mapU n (fun u => reconf pathIgnored u (lookupS n settings)) units
+  | .reconfU n => mapU n (fun u => reconf v u (lookupS n settings)) units
   | .termU n => dropU n units
   | _ => units
+
+/-- count the reload once for every unit it reconfigured -/
+def bumpAll (acts : List Action) : List (Name × Unit) → List (Name × Unit)
+  | [] => []
+  | e :: l => (if acts.contains (.reconfU e.1) then (e.1, e.2.bump) else e) :: bumpAll acts l
 
 structure Live where
   mgr : Mgr.St
@@ -154,7 +200,7 @@ structure LLoad where
 def lstep (v : Variant) (s : Live) (l : LLoad) : Live × Result :=
   let r := Mgr.step v.mgr s.mgr l.load
   match r.2 with
-  | .ok acts => (⟨r.1, acts.foldl (exec v.pathIgnored l.settings) s.units⟩, .ok acts)
+  | .ok acts => (⟨r.1, bumpAll acts (acts.foldl (exec v l.settings) s.units)⟩, .ok acts)
   | res => (⟨r.1, s.units⟩, res)
 
 def lookupU (n : Name) : List (Name × Unit) → Option Unit
@@ -173,7 +219,7 @@ def sessionUnit (r : Nat) : List (Name × Unit) → Option Name
 def deliver (b : Name) (recs : List Rec) (units : List (Name × Unit)) : List (Name × Unit) :=
   units.map (fun e =>
     match e.2 with
-    | .rib u => if u.cfg.sources.contains b then (e.1, .rib { u with store := recs.foldl (fun st r => upsert r st) u.store }) else e
+    | .rib u => if u.cfg.sources.contains b then (e.1, .rib { u with store := recs.foldl (fun st r => applyRec r st) u.store }) else e
     | _ => e)
 
 inductive Ev where
@@ -188,7 +234,9 @@ inductive Ev where
 def connectTo (r port : Nat) : List (Name × Unit) → List (Name × Unit)
   | [] => []
   | (n, .bmp b) :: l =>
-    if b.bound = port then (n, .bmp { b with sessions := b.sessions ++ [r] }) :: l
+    if b.bound = port then
+      -- a stale gate: the connection is accepted, the router's handler terminates at once
+      (if b.stale then (n, .bmp b) :: l else (n, .bmp { b with sessions := b.sessions ++ [r] }) :: l)
     else (n, .bmp b) :: connectTo r port l
   | e :: l => e :: connectTo r port l
 
